@@ -247,8 +247,12 @@ def plan(tier: str, seed: int):
     lim = limited_cases(tier)
     for lo, hi in chunks(len(lim), 8):
         shards.append(("E", tier, seed, lo, hi))
+    fh = file_histories(tier)
+    for fk in FH_KINDS:
+        for lo, hi in chunks(len(fh), 48):
+            shards.append(("F", tier, seed, fk, lo, hi))
     meta = {
-        "space_size": sum(s.size for s in sp.values()) + (len(lk) + 1) * len(ENTRIES) + nops + len(combos) + len(lim),
+        "space_size": sum(s.size for s in sp.values()) + (len(lk) + 1) * len(ENTRIES) + nops + len(combos) + len(lim) + len(fh) * len(FH_KINDS),
         "subspaces": {**{s.name: s.size for s in sp.values()}, "loader-x-entry": len(lk) * len(ENTRIES), "analysis-ops": nops, "task-sets": len(combos), "limited-programs": len(lim)},
         "bounds": {"data_sets": len(_STATE["data"]), "tasks": 2 if tier == "quick" else 3, "menu": len(menu)},
     }
@@ -632,6 +636,93 @@ def replay_schedule(combo: tuple[int, ...], schedule: list[int]) -> list[tuple]:
     return [_classify(k, v) for k, v in loop.run_all([_job(envs[l], e, d, g) for e, l, d, g in jobs])]
 
 
+# ------------------------------------------------------------------ (F) the same history, all-sync and all-async
+
+FH_OPS = ("load", "load-include", "shadow", "unshadow", "touch", "delete")
+FH_KINDS = ("caching-fs2", "caching-fs2-ext", "caching-choice2", "fs2")
+
+
+def file_histories(tier: str) -> list[tuple[str, ...]]:
+    depth = 4 if tier == "quick" else 5
+    out: list[tuple[str, ...]] = []
+    for n_ in range(2, depth + 1):
+        out += [h for h in itertools.product(FH_OPS, repeat=n_) if h[-1].startswith("load") and any(not o.startswith("load") for o in h)]
+    return out
+
+
+def check_file_history(lkind: str, hist: tuple[str, ...], res: ShardResult | None) -> list[tuple[str, Any, Any, Any]]:
+    """The same history of loads and file changes (a file of the same name appears in / disappears from the EARLIER of
+    two search directories, the original is rewritten or deleted) on two fresh loaders: every load synchronous on one,
+    asynchronous on the other. Step by step the answers are the same."""
+    import os
+    import shutil
+    import time as _time
+
+    from liquid2 import Environment
+    from liquid2 import FileSystemLoader
+    from liquid2.exceptions import LiquidError
+
+    from mc import seams
+
+    answers: dict[str, list[Any]] = {}
+    for mode in ("sync", "async"):
+        base = seams.sandbox("verif_c03h_")
+        try:
+            p1, p2 = os.path.join(base, "p1"), os.path.join(base, "p2")
+            fn = "n" if lkind.endswith("-ext") else "n.html"
+            seams.write_tree(base, {"p2/n.html": "second v1", "p1/keep.html": "k", "p2/main.html": "[{% include '" + fn + "' %}]"})
+            if lkind.startswith("caching-fs2"):
+                loader: Any = CachingFileSystemLoader([p1, p2], auto_reload=True, **({"ext": ".html"} if lkind.endswith("-ext") else {}))
+            elif lkind == "fs2":
+                loader = FileSystemLoader([p1, p2])
+            else:
+                loader = CachingChoiceLoader([FileSystemLoader(p1), FileSystemLoader(p2)], auto_reload=True)
+            env = Environment(loader=loader)
+            ver, got = 1, []
+            for op in hist:
+                if op.startswith("load"):
+                    name = fn if op == "load" else "main.html"
+                    try:
+                        if mode == "sync":
+                            got.append(("ok", env.get_template(name).render()))
+                        else:
+                            async def go(name: str = name) -> str:
+                                t_ = await env.get_template_async(name)
+                                return await t_.render_async()
+
+                            k_, v_ = run_solo(go())
+                            if k_ != "ok":
+                                raise v_
+                            got.append(("ok", v_))
+                    except LiquidError as e:
+                        got.append(("liquid", type(e).__name__))
+                    except Exception as e:  # noqa: BLE001
+                        got.append(("foreign", type(e).__name__))
+                elif op == "shadow":
+                    seams.write_tree(base, {"p1/n.html": "first"})
+                elif op == "unshadow":
+                    if os.path.exists(os.path.join(p1, "n.html")):
+                        os.unlink(os.path.join(p1, "n.html"))
+                elif op == "delete":
+                    if os.path.exists(os.path.join(p2, "n.html")):
+                        os.unlink(os.path.join(p2, "n.html"))
+                else:
+                    ver += 1
+                    seams.write_tree(base, {"p2/n.html": f"second v{ver}"})
+                    t_ = _time.time() + ver * 10
+                    os.utime(os.path.join(p2, "n.html"), (t_, t_))
+            answers[mode] = got
+        finally:
+            shutil.rmtree(base, ignore_errors=True)
+    if res is not None:
+        res.evaluations += 2 * sum(1 for o in hist if o.startswith("load"))
+        res.outcomes.add(h64(answers["sync"]))
+        res.nontrivial.add(h64([lkind, list(hist)]))
+    if answers["sync"] != answers["async"]:
+        return [("C03:file-history-sync-async-differ", {"loader": lkind, "file_history": list(hist)}, {"sync": answers["sync"]}, {"async": answers["async"]})]
+    return []
+
+
 # ------------------------------------------------------------------ shards
 
 
@@ -659,6 +750,11 @@ def run_shard(shard) -> ShardResult:
             res.cases += 1
             for sig, case, exp, obs in check_analysis(i, res):
                 res.violation(sig, {"part": "C", "tier": tier, "seed": seed, "op": i, **case}, exp, obs)
+    elif kind == "F":
+        for hist in file_histories(tier)[shard[4] : shard[5]]:
+            res.cases += 1
+            for sig, case, exp, obs in check_file_history(shard[3], hist, res):
+                res.violation(sig, {"part": "F", "tier": tier, "seed": seed, **case}, exp, obs)
     elif kind == "E":
         for c in limited_cases(tier)[shard[3] : shard[4]]:
             res.cases += 1
@@ -683,6 +779,9 @@ def replay(case: dict[str, Any]) -> list[dict[str, Any]]:
             c["prog"] = ps.totuple(c["prog"])
             c.pop("source", None)
         for sig, exp, obs in check_prog_case(c, None):
+            res.violation(sig, case, exp, obs)
+    elif part == "F":
+        for sig, c, exp, obs in check_file_history(case["loader"], tuple(case["file_history"]), None):
             res.violation(sig, case, exp, obs)
     elif part == "E":
         for sig, c, exp, obs in check_limited((case["prefix"], tuple(case["kinds"]), tuple(case["lengths"])), None):
